@@ -165,7 +165,7 @@ def _get_domain_source_from_domain_and_type_values(
     if is_iterable(domain):
         domain = filter(lambda x: isinstance(x, type_), domain)
     elif domain is None and issubclass(type_, Symbol):
-        domain = SymbolGraph().get_instances_of_type(type_)
+        return From(SymbolGraph().get_instances_of_type(type_), from_symbol_graph=True)
     return From(domain)
 
 
